@@ -63,6 +63,8 @@ def run(c):
             klass, method, _, _ = oracles.request_line(raw)
             # the no-body rule applies to requests the server could read as HEAD / OPTIONS
             nobody = klass == "wellformed" and method in ("HEAD", "OPTIONS")
+            if klass == "unspecified" and method is None:
+                method = raw.split(b" ", 1)[0].decode("latin-1").strip() if b" " in raw[:12] else None
             if klass == "unspecified" and (method or "").upper() in ("HEAD", "OPTIONS"):
                 # corners the property does not speak about (lower-case version, extra spaces): with or without body is accepted
                 nobody = resp.endswith(b"\r\n\r\n")
